@@ -404,6 +404,7 @@ def explore(run, driver, budget):
     try:
         from harness import election
 
+        run.driver = driver   # the clip-stage differential of apiboot.model_level_clip talks to the Lean driver
         election.api_boot_checks(run, budget, props=("C06",))
     except ImportError:
         pass
